@@ -505,6 +505,10 @@ func c03(run *core.Run, replay string) {
 		seeds = append(seeds, recipe{"seed-" + t + "-none", cfg(t, "NONE", []uint{1024, 4096, 16384, 65536}[i%4], 1, []uint{0, 32, 64}[i%3]), sh, 3*[]int{1024, 4096, 16384, 65536}[i%4] + 100, S})
 		seeds = append(seeds, recipe{"seed-" + t + "-coded", cfg(t, []string{"HUFFMAN", "ANS0", "RANGE", "FPAQ"}[i%4], 8192, 1, 32), sh, 30000, S})
 	}
+	// the ARM64 branch of the EXE codec, the UTF codec on 3/4-byte sequences, PACK on a 16-symbol alphabet
+	seeds = append(seeds, recipe{"seed-EXEarm-none", cfg("EXE", "NONE", 16384, 1, 0), "elfarm64", 50000, S},
+		recipe{"seed-UTFcjk-none", cfg("UTF", "NONE", 16384, 1, 32), "cjk", 50000, S},
+		recipe{"seed-PACK16-none", cfg("PACK", "NONE", 4096, 1, 0), "alpha:16", 13000, S})
 	for i, e := range kz.Entropies {
 		seeds = append(seeds, recipe{"seed-none-" + e, cfg("NONE", e, 4096, 1, []uint{32, 0, 64}[i%3]), []string{"text", "skewed", "random"}[i%3], 14000, S})
 		seeds = append(seeds, recipe{"seed-bwt-" + e, cfg("BWT+RANK+ZRLT", e, 16384, 1, 0), "html", 40000, S})
